@@ -277,6 +277,7 @@ def run (ctx):
   for fn_ in [f_ for c_ in mod.classes.values() for f_ in c_.methods.values()]:
     gf_ = q.cfg_of(fn_)
     for st_, h_, a_ in gf_.loop_nodes:
+      if isinstance(st_, ast.For) and isinstance(st_.iter, (ast.Tuple, ast.List)) and len(st_.iter.elts) == 1: continue       # runs once (the normaliser's return-elimination wrapper)
       body_ids = set(id(x) for b in st_.body for x in ast.walk(b))
       for hd in [x for b in st_.body for x in ast.walk(b) if isinstance(x, ast.ExceptHandler)]:
         set_in_handler = set(t.id for b in hd.body for x in ast.walk(b) if isinstance(x, ast.Assign) for t in x.targets if isinstance(t, ast.Name))
